@@ -46,7 +46,7 @@ from odl.util import vectorize
 from mc.ref import interp_ref as R
 
 PROPERTY = 'C15'
-BUDGET = {'quick': 600, 'thorough': 3600}
+BUDGET = {'quick': 1500, 'thorough': 3600}
 
 # ------------------------------------------------------------------------------------------
 # alphabets
